@@ -1,21 +1,31 @@
 ---------------------------- MODULE MC_ExprDeps ----------------------------
 (* Exhaustive check of the evaluator on the whole family: one initial state per expression.
    These are laws of the SPECIFICATION (sanity of `Run`, existence of a sound analysis); the verdict
-   on StreamFlow comes from the binding in harness/vh/props/C31.py.                                *)
-EXTENDS ExprDepsFamily
+   on StreamFlow comes from the binding in harness/vh/props/C31.py.  One invariant evaluates `Run`
+   once per expression, asserts every law and (EMIT) prints the case for the oracle and the binding. *)
+EXTENDS ExprDepsFamily, Json
+CONSTANT EMIT
 VARIABLE cs
 Init == cs \in Family
 Next == UNCHANGED cs
 
-\* the evaluator never leaves the modelled fragment, and every expression of the family evaluates
-Supported == Run(cs.e).sup
-Evaluates == Run(cs.e).ok
-\* the class label says whether a field of inputs is read at all (guards against a vacuous evaluator)
-ClassExpectation == (cs.x = "none" => Reads(cs.e) = {}) /\ (cs.x = "some" => Reads(cs.e) # {})
-\* non-interference: the inputs object is reachable only through the identifier `inputs`
-NoIdentifierNoRead == ~UsesInputsIdentifier(cs.e) => KeysRead(cs.e) = {}
-\* a sound static analysis exists for this syntax (so the property is satisfiable)
-SoundAnalysisExists == Reads(cs.e) \subseteq SafeDeps(cs.e)
-\* every key read is either a field of inputs or the numeric index
-KeysAreKnown == KeysRead(cs.e) \subseteq (InputFields \cup {"0"})
+Laws ==
+  LET r     == Run(cs.e)
+      keys  == {s.f : s \in r.reads}
+      reads == keys \cap InputFields
+      safe  == SafeDeps(cs.e)
+  IN \* the evaluator never leaves the modelled fragment, and every expression of the family evaluates
+     /\ Assert(r.sup, <<"Supported", cs>>)
+     /\ Assert(r.ok, <<"Evaluates", cs>>)
+     \* the class label says whether a field of inputs is read at all (guards against a vacuous evaluator)
+     /\ Assert((cs.x = "none" => reads = {}) /\ (cs.x = "some" => reads # {}), <<"ClassExpectation", cs>>)
+     \* non-interference: the inputs object is reachable only through the identifier `inputs`
+     /\ Assert(~UsesInputsIdentifier(cs.e) => keys = {}, <<"NoIdentifierNoRead", cs>>)
+     \* a sound static analysis exists for this syntax (so the property is satisfiable)
+     /\ Assert(reads \subseteq safe, <<"SoundAnalysisExists", cs>>)
+     \* every key read is either a field of inputs or the numeric index
+     /\ Assert(keys \subseteq (InputFields \cup {"0"}), <<"KeysAreKnown", cs>>)
+     /\ EMIT => PrintT(ToJson([c |-> cs.c, x |-> cs.x, e |-> cs.e, keys |-> keys, reads |-> reads,
+                               sites |-> r.reads, ok |-> r.ok, sup |-> r.sup, safe |-> safe]))
+ASSUME EMIT => PrintT(ToJson([heap |-> Heap]))
 =============================================================================
